@@ -42,7 +42,6 @@ Buckets: invalid_hugr.<class> / rejected.<title> / crash.<sig> / funcdefn.count 
 chain.shape / chain.dagger / chain.power_exponent / chain.control_arity / chain.order /
 block.controls / block.body / writeback.control / writeback.captured / dataflow.other.
 """
-import json
 import os
 import sys
 
